@@ -100,7 +100,10 @@ class Lang:
             else:
                 ty = (lambda o: lambda x, y: sig(o, [x, y]))(o)
             body = None
-            if o.get("chain"):
+            if o.get("dup"):
+                # composite that uses its parameter twice: lambda x: g x x
+                body = (lambda g: lambda x: self.py[g].instance()(x, x))(o["dup"])
+            elif o.get("chain"):
                 # composite: lambda x: a (b x) for chain [b, a]
                 body = (lambda names: lambda x: self._chain(names, x))(o["chain"])
             self.py[o["name"]] = Operator(type=ty, name=o["name"], body=body)
@@ -167,7 +170,7 @@ class Lang:
                     [("(" + st(p) + ")" if p[0] == "T" and p[1] == 3 else st(p)) for p in o["params"]]
                     + [st(o["out"])]) + ("".join(f" [{'xy'[k]} <= {n[b]}]" for k, b in o.get("cons", [])))
                     + (" = \\x. " + " (".join(reversed(o["chain"])) + " x" + ")" * (len(o["chain"]) - 1)
-                       if o.get("chain") else "")
+                       if o.get("chain") else (" = \\x. " + o["dup"] + " x x") if o.get("dup") else "")
                     for o in self.ops}}
 
 
@@ -295,6 +298,14 @@ def gen_lang(rng: random.Random) -> Lang:
             ops.append({"name": f"f{len(ops)}", "nvars": 0,
                         "params": [T_(3, b["params"][0], a["out"]), b["params"][0]],
                         "out": a["out"] if rng.random() < 0.5 else sch(oty())})
+    # a composite operator that uses its parameter twice (the argument's expression object then
+    # occurs twice in the expansion)
+    twos = [o for o in ops if o["nvars"] == 0 and len(o["params"]) == 2 and not o.get("chain")
+            and o["params"][0] == o["params"][1] and o["params"][0][1] != 3]
+    if twos and rng.random() < 0.6:
+        g = rng.choice(twos)
+        ops.append({"name": f"f{len(ops)}", "nvars": 0, "params": [g["params"][0]], "out": g["out"],
+                    "dup": g["name"]})
     return Lang(h, listed, top, bot, ops)
 
 
@@ -636,6 +647,17 @@ def gen_cases(rng, nlang: int, per_lang: int):
                 r2 = rekey(r, [0])
             sw, other = gen_switches(rng)
             cases.append(Case(L, "expr", r2, sw, other, f"L{tries}_e{i}"))
+        # composites that use their parameter twice, applied to a compound argument: the
+        # argument's expression objects occur twice in the expansion (one node per occurrence)
+        for o in [o for o in L.ops if o.get("dup")]:
+            want = tup(o["params"][0])
+            fit = [e for e in cands if e[1] is not None and sub(L.h, e[1], want)
+                   and rsize(e[0]) <= MAX_NODES // 4]
+            for e in rng.sample(fit, min(2, len(fit))):
+                r2 = rekey(("op", o["name"], [e[0]]), [0])
+                if try_type_keyed(L, r2) is not None:
+                    sw, other = gen_switches(rng)
+                    cases.append(Case(L, "expr", r2, sw, other, f"L{tries}_d{len(cases)}"))
         for i in range(max(1, per_lang // 4)):
             # several transformations in one graph, mostly with types in common
             k = rng.choice([2, 2, 3])
